@@ -239,56 +239,73 @@ theorem lookup_not_duplicate (i : GCIn) (c : Claim) (huniq : ∀ pid, (nodesOf i
 
 /-! ### Liveness: where Deletes come from -/
 
+/-- the launch-timeout half: at most one Delete, only when the launch timeout has passed for a claim that is not
+    launched, and it only falls through (untouched) for a launched claim -/
+theorem launchPart_spec (i : LiveIn) (l : Tri) (lAt : Int) (s₀ : LState) :
+    s₀.dels ≤ (launchPart i l lAt s₀).2.dels ∧ (launchPart i l lAt s₀).2.dels ≤ s₀.dels + 1 ∧
+    ((launchPart i l lAt s₀).1 = .continue → (launchPart i l lAt s₀).2 = s₀) ∧
+    (s₀.dels < (launchPart i l lAt s₀).2.dels → l ≠ .true_ ∧ launchTimeout ≤ i.now - lAt) := by
+  have h1 := timeoutBranch_dels_le i s₀
+  unfold launchPart
+  by_cases hl : (l != Tri.true_) = true
+  · by_cases hto : i.now - lAt < launchTimeout
+    · simp [hl, hto]
+    · simp only [hl, hto, if_true, if_false]
+      rcases hb : timeoutBranch i s₀ with ⟨r, s⟩
+      rw [hb] at h1
+      simp only at h1
+      have hne : l ≠ Tri.true_ := by simpa using hl
+      cases r with
+      | stop e => exact ⟨h1.1, h1.2, by simp, fun _ => ⟨hne, by omega⟩⟩
+      | «continue» => exact ⟨h1.1, h1.2, by simp, fun _ => ⟨hne, by omega⟩⟩
+  · simp [hl]
+
 /-- Deletes are only issued by a timeout branch whose timeout has passed -/
 theorem liveness_dels (i : LiveIn) (l : Tri) (lAt : Int) (s₀ : LState)
     (h : s₀.dels < (liveness i l lAt s₀).2.dels) :
     i.registered ≠ .true_ ∧
     ((l ≠ .true_ ∧ launchTimeout ≤ i.now - lAt) ∨ registrationTimeout ≤ i.now - i.registeredAt) := by
+  have hp := launchPart_spec i l lAt s₀
   unfold liveness at h
   split at h
   · simp at h
   · rename_i hreg
     refine ⟨by simpa using hreg, ?_⟩
-    by_cases hr : i.now - i.registeredAt < registrationTimeout
-    · left
-      by_cases hl : (l != Tri.true_) = true
-      · by_cases hto : i.now - lAt < launchTimeout
-        · simp [hl, hto] at h
-        · exact ⟨by simpa using hl, by omega⟩
-      · exfalso
-        simp only [hl, hr] at h
-        simp at h
-    · right; omega
+    rcases hb : launchPart i l lAt s₀ with ⟨r, s⟩
+    rw [hb] at hp h
+    simp only at hp h
+    cases r with
+    | stop e => simp only at h; exact Or.inl (hp.2.2.2 h)
+    | «continue» =>
+      have hs : s = s₀ := hp.2.2.1 rfl
+      subst hs
+      simp only at h
+      by_cases hr : i.now - i.registeredAt < registrationTimeout
+      · simp [hr] at h
+      · right; omega
 
+/-- (repaired code) at most ONE Delete per pass: the launch-timeout branch no longer falls through -/
 theorem liveness_dels_le (i : LiveIn) (l : Tri) (lAt : Int) (s₀ : LState) :
-    (liveness i l lAt s₀).2.dels ≤ s₀.dels + 2 := by
-  have h1 := timeoutBranch_dels_le i s₀
+    (liveness i l lAt s₀).2.dels ≤ s₀.dels + 1 := by
+  have hp := launchPart_spec i l lAt s₀
   unfold liveness
   split
   · simp
-  · split
-    · split
-      · simp
-      · rcases hb : timeoutBranch i s₀ with ⟨r, s⟩
-        rw [hb] at h1
-        simp only at h1
-        have h2 := timeoutBranch_dels_le i s
-        cases r with
-        | stop e => simp only; omega
-        | «continue» =>
-          simp only
-          split
-          · simp only; omega
-          · rcases hb2 : timeoutBranch i s with ⟨r2, s2⟩
-            rw [hb2] at h2
-            simp only at h2
-            cases r2 <;> simp only <;> omega
-    · simp only
+  · rcases hb : launchPart i l lAt s₀ with ⟨r, s⟩
+    rw [hb] at hp
+    simp only at hp
+    cases r with
+    | stop e => simp only; exact hp.2.1
+    | «continue» =>
+      have hs : s = s₀ := hp.2.2.1 rfl
+      subst hs
+      simp only
       split
       · simp
-      · rcases hb2 : timeoutBranch i s₀ with ⟨r2, s2⟩
-        rw [hb2] at h1
-        simp only at h1
+      · have h2 := timeoutBranch_dels_le i s
+        rcases hb2 : timeoutBranch i s with ⟨r2, s2⟩
+        rw [hb2] at h2
+        simp only at h2
         cases r2 <;> simp only <;> omega
 
 /-! ### Node repair: the breaker threshold -/
